@@ -75,6 +75,8 @@ func caseOptions(r *common.Run, n int) raftsim.Options {
 		o.Porcupine = true
 		o.WRead, o.WPropose = 8, 10
 		o.Keys = 2
+		// reads on followers and non-voting replicas while leaders are cut off
+		o.NonVotings, o.WConfigChange, o.WPartition = 1, 2, 2
 	case "C06":
 		o.WRead, o.WPartition, o.WTransfer = 10, 2, 2
 		// C06 quantifies over heartbeat loss/duplication/reordering; a duplicated
@@ -86,6 +88,8 @@ func caseOptions(r *common.Run, n int) raftsim.Options {
 		o.NonVotings, o.Witnesses = 1, 1
 	case "C18":
 		o.WConfigChange = 3
+		o.WRead, o.WPartition = 8, 2
+		o.NoDupReadIndex = true // as for C06: only heartbeat duplication is in scope for read confirmations
 		o.NonVotings, o.Witnesses = 1+rng.Intn(2), 1
 		if o.Voters > 3 {
 			o.Voters = 3
